@@ -59,6 +59,8 @@ type childResult struct {
 	PongTimeout int      `json:"pong_timeout"`
 	FloodSent   int64    `json:"flood_sent"`
 	FloodErrs   int64    `json:"flood_errs"`
+	// APIClientsAtStop: connections to the local API held open (silent, mid-request, idle) while Stop ran
+	APIClientsAtStop int `json:"api_clients_at_stop"`
 }
 
 // freePort returns a loopback TCP port that is free right now, chosen by the kernel (ports derived from the
@@ -647,6 +649,33 @@ func childRun(args []string) int {
 				res.FloodSent += floodSent.Load()
 				res.FloodErrs += floodErrs.Load()
 			}
+			// clients of the local API at the moment of the stop: a connection that has not sent anything yet (a
+			// browser's pre-connect), one in the middle of a request line, one idle after a served request
+			var apiConns []net.Conn
+			if g.api {
+				ap := apiA
+				if name == "B" {
+					ap = apiB
+				}
+				for k := 0; k < 3; k++ {
+					c, err := net.DialTimeout("tcp", fmt.Sprintf("127.0.0.1:%d", ap), time.Second)
+					if err != nil {
+						break
+					}
+					switch k {
+					case 1:
+						_, _ = c.Write([]byte("GET / HTTP/1.1\r\nHost: x"))
+					case 2:
+						_, _ = c.Write([]byte("GET /nothing-here HTTP/1.1\r\nHost: x\r\n\r\n"))
+						_ = c.SetReadDeadline(time.Now().Add(300 * time.Millisecond))
+						_, _ = c.Read(make([]byte, 4096))
+					}
+					apiConns = append(apiConns, c)
+				}
+				if len(apiConns) > 0 {
+					res.APIClientsAtStop += len(apiConns)
+				}
+			}
 			t1 := time.Now()
 			var ok bool
 			func() {
@@ -657,6 +686,9 @@ func childRun(args []string) int {
 				}()
 				ok = in.Stop()
 			}()
+			for _, c := range apiConns {
+				c.Close()
+			}
 			res.StopMs = append(res.StopMs, time.Since(t1).Milliseconds())
 			if !ok {
 				fail("stop-returned-false", "router %s: Stop() returned false", name)
@@ -802,6 +834,7 @@ func run(c *core.Ctx) {
 				res.Count("cycles_mode_"+mode, int64(cr.Cycles))
 				res.Count("pong_exchanges_ok", int64(cr.PongOK))
 				res.Count("pong_exchanges_timed_out", int64(cr.PongTimeout))
+				res.Count("api_client_connections_open_while_stopping", int64(cr.APIClientsAtStop))
 				if i < 3 {
 					res.Sample(map[string]any{"config": cr.ConfigDesc, "cycles": cr.Cycles, "link_wait_ms": cr.LinkWaitMs, "stop_ms": cr.StopMs, "goroutines_after_cycle": cr.Goroutines})
 				}
